@@ -193,3 +193,7 @@ Theorem C01_custom_algebras_wellformed_iff_admissible : forall (sig : list Z) (b
   ((exists A, mk_custom sig basis graded = Ok A /\ wf_alg A = true) <-> basis_ok sig basis = true).
 Proof. exact wf_custom_spec. Qed.
 Print Assumptions C01_custom_algebras_wellformed_iff_admissible.
+
+(* ---- source pins: the functions whose hand-written model carries the theorems above are still, textually (after
+   ast normalisation), the functions the model was validated against; an edit breaks Bridge/Pins_C01.v ---- *)
+From KV Require Bridge.Pins_C01.
